@@ -16,7 +16,8 @@ META = {
             "invocations and goroutine position after every step; unscheduled concurrent runs (several senders, retransmissions, "
             "ticks, registration and cancellation in flight, concurrent Send on one channel, a stuck handler with a full queue) and "
             "the forcing scenario are trace-validated; the duplicate filter alone is checked for linearizability under six "
-            "concurrent callers. Model checking is the right level: the property quantifies over interleavings.",
+            "concurrent callers and, sequentially, on every arrival order of two senders' sequence numbers 1..4 (out of order, "
+            "gaps filled later, everything seen so far retransmitted after every step). Model checking is the right level: the property quantifies over interleavings.",
     "note": "Reading of 'sees nothing after its context is cancelled': a message dequeued after cancel() took effect is never handed "
             "to the handler; a cancellation that falls between the context check and the call does not stop that one call (the model "
             "has this window as MC_Window, and the code cannot close it). Trusted: Go channels are FIFO; the harness parks goroutines "
